@@ -109,6 +109,19 @@ func genWorldA(seed uint64, tier string, prop string, prof *profile) *Tape {
 		total += wk
 	}
 	t.Steps = append(t.Steps, Step{Op: "elect", Node: rng.IntN(n)})
+	// A minority of runs starts with a log big enough to leave the sizes that
+	// internal buffers and caches happen to have (1000-entry read chunks, the
+	// 300-entry history LRU): correctness must not depend on staying below them.
+	bigOdds := 14
+	if tier == "thorough" {
+		bigOdds = 6
+	}
+	if rng.IntN(bigOdds) == 0 {
+		t.Steps = append(t.Steps, Step{Op: "bigadd", K: 1050 + rng.IntN(500)})
+		if n > 1 {
+			t.Steps = append(t.Steps, Step{Op: "rep", Node: rng.IntN(n), K: 64}, Step{Op: "apply", Node: rng.IntN(n), K: 64})
+		}
+	}
 	for i := 0; i < steps; i++ {
 		x := rng.IntN(total)
 		var op string
@@ -301,6 +314,19 @@ func (w *worldA) step(s Step) bool {
 		}
 	case "add":
 		w.doAdd(s)
+	case "bigadd":
+		for rem := s.K; rem > 0; {
+			k := 150
+			if k > rem {
+				k = rem
+			}
+			w.doAdd(Step{Op: "add", K: k, Kind: "raw", Data: "sync"})
+			rem -= k
+			if w.e.leader < 0 {
+				break
+			}
+		}
+		e.r.Count("probe.big_log")
 	case "rep":
 		nd := w.node(s.Node)
 		if nd != nil {
